@@ -255,7 +255,7 @@ OBJ_MAPS = [[], [], [[None, "urn:m1"]], [["", "urn:m2"]], [["p", "urn:m1"]], [["
 
 
 def gen_object(rng, tier):
-    n = 500 if tier == "quick" else 6000
+    n = 500 if tier == "quick" else 15000
     for _ in range(n):
         m = rand_model(rng, rng.choice([0, 1, 1, 2]))
         yield {"model": m, "inst": rand_instance(rng, m), "ns_map": [list(x) for x in rng.choice(OBJ_MAPS)]}
@@ -268,7 +268,7 @@ SAFE_OBJ_MAPS = [[], [], [["p", "urn:m1"], ["q", "urn:f1"]], [["unused", "urn:zz
 
 
 def gen_ser_object(rng, tier):
-    n = 600 if tier == "quick" else 8000
+    n = 600 if tier == "quick" else 20000
     for _ in range(n):
         m = rand_model(rng, rng.choice([0, 1, 1, 2, 2]))
         yield {"model": m, "inst": rand_instance(rng, m), "ns_map": [list(x) for x in rng.choice(SAFE_OBJ_MAPS)]}
